@@ -181,8 +181,10 @@ static std::string err_json(const char *phase, const std::exception &e) {
     return s;
 }
 
+using SeedMap = std::map<std::string, std::vector<std::optional<Value>>>;
+
 // wire + finish + executor builder (observer attached by caller)
-static void prepare(Prepared &p, const JV &prog_json) {
+static void prepare(Prepared &p, const JV &prog_json, const SeedMap *seeds = nullptr) {
     p.prog = std::make_shared<Program>();
     p.prog->root = prog_json;
     p.prog->uid = next_uid();
@@ -213,6 +215,7 @@ static void prepare(Prepared &p, const JV &prog_json) {
             testing::set_replay_deltas(gb->global_state(), kv.first, deltas);
         }
     }
+    if (seeds != nullptr) for (auto &kv : *seeds) testing::set_replay_deltas(gb->global_state(), kv.first, kv.second);
     p.eb.emplace();
     p.eb->graph_builder(std::move(*gb));
     p.eb->mode(realtime ? GraphExecutorMode::RealTime : GraphExecutorMode::Simulation);
@@ -224,7 +227,7 @@ static void prepare(Prepared &p, const JV &prog_json) {
     p.eb->add_lifecycle_observer(&obs);
 }
 
-static void run_prepared(Prepared &p, RunCtx &ctx, std::string &error, std::string &recorded) {
+static void run_prepared(Prepared &p, RunCtx &ctx, std::string &error, std::string &recorded, SeedMap *capture = nullptr) {
     const JV &pj = p.prog->root;
     GraphExecutorBuilder &eb = *p.eb;  // the builder is reused across runs (C07); the observer dispatches on g_ctx
     g_ctx = &ctx;
@@ -244,6 +247,7 @@ static void run_prepared(Prepared &p, RunCtx &ctx, std::string &error, std::stri
                 recorded += ":";
                 try {
                     auto deltas = testing::get_recorded_deltas(ex.view().graph().global_state(), k.as_str());
+                    if (capture != nullptr) (*capture)[k.as_str()] = deltas;
                     recorded += "[";
                     for (std::size_t i = 0; i < deltas.size(); ++i) { if (i) recorded += ','; if (deltas[i]) json_of(recorded, deltas[i]->view()); else recorded += "null"; }
                     recorded += "]";
@@ -291,6 +295,33 @@ std::string handle_run(const JV &req) {
     out += ",\"error\":" + (error.empty() ? std::string{"null"} : error);
     if (!recorded.empty()) out += ",\"recorded\":" + recorded;
     out += "}";
+    return out;
+}
+
+// "rr": record in prog1, seed prog2's replay buffers with the recorded Values (no JSON round trip), run prog2.
+std::string handle_rr(const JV &req) {
+    std::string out = "{\"ok\":true,\"runs\":[";
+    SeedMap captured;
+    for (int i = 0; i < 2; ++i) {
+        Prepared p;
+        SeedMap seeds;
+        if (i == 1) { for (auto &kv : req.at("map").o) { auto it = captured.find(kv.second.as_str()); if (it != captured.end()) seeds[kv.first] = it->second; } }
+        prepare(p, req.at(i == 0 ? "prog1" : "prog2"), i == 1 ? &seeds : nullptr);
+        if (i) out += ',';
+        if (!p.error.empty()) { out += "{\"built\":false,\"error\":" + p.error + "}"; if (i == 0) { out += ",null"; break; } continue; }
+        RunCtx ctx;
+        const JV &pj = p.prog->root;
+        ctx.snap = pj.bool_or("snap", false);
+        ctx.node_events = pj.bool_or("node_events", true);
+        std::string error, recorded;
+        run_prepared(p, ctx, error, recorded, &captured);
+        out += "{\"built\":true,\"trace\":";
+        emit_trace(out, ctx);
+        out += ",\"error\":" + (error.empty() ? std::string{"null"} : error);
+        if (!recorded.empty()) out += ",\"recorded\":" + recorded;
+        out += "}";
+    }
+    out += "]}";
     return out;
 }
 
